@@ -274,8 +274,17 @@ class Executor(ExprMixin, CallMixin, LoopMixin):
         return [(st, NORMAL)]
 
     def s_Try(self, node, st):
-        if node.finalbody:
-            raise Unsupported("try/finally")
+        outs = self._try_core(node, st)
+        if not node.finalbody:
+            return outs
+        # finally: runs on every exit of the try statement; its own abrupt exit replaces the pending one
+        res = []
+        for s2, oc in outs:
+            for s3, oc3 in self.exec_block(node.finalbody, s2):
+                res.append((s3, oc if oc3 == NORMAL else oc3))
+        return res
+
+    def _try_core(self, node, st):
         outs = []
         for s2, oc in self.exec_block(node.body, st):
             if oc[0] == "raise":
